@@ -27,7 +27,8 @@ RULE = ('(paths) every sign pattern x magnitude template of up to k fills (k<=4 
         'distinct (sign pattern, trajectory, values).'
         " Round-5 reach: (position driver) fills stamped before the position's time are attempted in between and must be refused, after which the position must reconcile to the ledger with or without the refused fill (never a mixture); the fill that opens a position may be 0.25-0.75 units."
         " Round-10 reach: part `broker`: orders filled and positions re-marked by SimulatedBroker.update itself (open and closed hours, orders waiting over closed hours, reports read between submission and update, 1-2 portfolios, bid/ask spreads, percentage fees); the identities are checked on every row of get_portfolio_as_dict after every update (non-trivial = a re-marked position traded on both sides)."
-        " Round-11 reach: micro-priced assets (8e-6, 0.0004) in the broker part.")
+        " Round-11 reach: micro-priced assets (8e-6, 0.0004) in the broker part."
+        " Round-12 reach: a market-neutral first step (long n / short n at one price: market value exactly zero) in a quarter of the broker cases.")
 ASSUMPTIONS = [
     'quantities are whole numbers (as Transaction documents) or, in a quarter of the random ladders, non-integers of at '
     'least one unit; sub-unit fills other than the one opening a position are outside the domain (the code documents '
@@ -479,6 +480,8 @@ def run_broker(case):
                         cls.add('remarked_while_an_order_in_it_waits')
                     if any(x[0] > 0 for x in ep.fills) and any(x[0] < 0 for x in ep.fills) and st_['moves']:
                         nt = True
+    if case.get('hedged'):
+        cls.add('market_neutral_book_opened_at_zero_market_value')
     cls.add('portfolios_%d' % len(pids))
     cls.add('fee_' + ('zero' if case['fee'] is None else 'percent'))
     return Result(sorted(cls), nontrivial=nt, info={'fills': len(log)})
@@ -511,9 +514,17 @@ def broker_cases(draw):
                  for _ in range(draw(st.sampled_from([0, 1, 1, 2, 3])))]
         steps.append({'adv': draw(st.sampled_from(['min', 'min', 'closed', 'closed', 'nextday'])), 'orders': orders,
                       'moves': moves, 'read_first': draw(st.booleans())})
-    return {'na': na, 'np': np_, 'steps': steps,
-            'start_prices': [draw(st.one_of(gen.prices, gen.prices, st.sampled_from([8e-6, 0.0004]))) for _ in range(na)],      # incl. micro-priced assets
-            'spread': draw(st.sampled_from([0.0, 0.01, 0.25])),
+    start_prices = [draw(st.one_of(gen.prices, gen.prices, st.sampled_from([8e-6, 0.0004]))) for _ in range(na)]      # incl. micro-priced assets
+    hedged = na >= 2 and draw(st.sampled_from([False, False, False, True]))
+    if hedged:
+        # a market-neutral book: long n of one asset and short n of another quoted at the same price, so that the
+        # portfolio's market value is exactly zero when the positions are opened
+        start_prices[1] = start_prices[0]
+        n_ = draw(st.sampled_from([1, 100, 250]))
+        steps.insert(0, {'adv': 'min', 'orders': [[0, 0, n_], [0, 1, -n_]], 'moves': [], 'read_first': False})
+    return {'na': na, 'np': np_, 'steps': steps, 'hedged': hedged,
+            'start_prices': start_prices,
+            'spread': 0.0 if hedged else draw(st.sampled_from([0.0, 0.01, 0.25])),
             'fee': draw(st.sampled_from([None, None, [0.001, 0.005], [0.01, 0.0]]))}
 
 
